@@ -181,6 +181,11 @@ func genBatchReq(r *fw.Rng) *batchReq {
 	// content: pick the kind so that ties and differences in part counts both occur
 	kinds := []codingKind{kASCII, kLatin1, kUCS2, kGB, kGSMUnpacked, kGSMPacked}
 	kind := kinds[r.Intn(len(kinds))]
+	if edgeUnits > 0 {
+		b.content = exactUnits(r, edgeKind, edgeUnits)
+		b.ref = byte(r.Pick(0, 1, 107, 255))
+		return b
+	}
 	if r.Chance(1, 5) {
 		b.content, _ = randomText(r, 400)
 	} else {
@@ -194,6 +199,35 @@ func genBatchReq(r *fw.Rng) *batchReq {
 	}
 	b.ref = byte(r.Pick(0, 1, 107, 255))
 	return b
+}
+
+// edgeKind/edgeUnits: when set (edge255 stage; one goroutine per worker) genBatchReq builds a content of
+// exactly that many capacity units under that coding.
+var (
+	edgeKind  codingKind
+	edgeUnits int
+)
+
+// exactUnits builds a text whose encoding under kind has exactly n units, from single-unit characters
+// (two-octet BMP characters for UCS-2) that every coding of the same protocol family can also carry or not.
+func exactUnits(r *fw.Rng, kind codingKind, n int) string {
+	var alphabet []rune
+	per := 1
+	switch kind {
+	case kASCII, kGB:
+		alphabet = []rune("abcdefgh 0123")
+	case kLatin1:
+		alphabet = []rune("abcé ñü1")
+	case kUCS2:
+		alphabet, per = []rune("中文a短信é"), 2
+	default:
+		alphabet = []rune("abc 123@")
+	}
+	rs := make([]rune, 0, n/per)
+	for u := 0; u+per <= n; u += per {
+		rs = append(rs, alphabet[r.Intn(len(alphabet))])
+	}
+	return string(rs)
 }
 
 func validPrefix(s string, n int) int {
@@ -303,6 +337,20 @@ func init() {
 		},
 		Stages: []*fw.Stage{
 			{Name: "requests", N: q(40000, 1500000), Run: func(c *fw.Case) { c09Case(c, 8, false) }},
+			{
+				// contents that fill exactly 254/255/256 parts (+-1 unit) of one coding: the edge of the part-count limit,
+				// where a candidate must stay usable at 255 parts and must be dropped at 256
+				Name: "edge255", N: q(1440, 40000),
+				Run: func(c *fw.Case) {
+					kinds := []codingKind{kASCII, kLatin1, kUCS2, kGB, kGSMUnpacked, kGSMPacked}
+					kind := kinds[c.Idx%6]
+					parts := []int{254, 255, 256}[c.Idx/6%3]
+					delta := []int{-1, 0, 0, 1}[c.Idx/18%4]
+					edgeKind, edgeUnits = kind, parts*map[bool]int{true: 153, false: 134}[kind == kGSMUnpacked || kind == kGSMPacked]+delta
+					defer func() { edgeUnits = 0 }()
+					c09Case(c, 2, false)
+				},
+			},
 			{
 				Name: "comparator", Exhaustive: "all (coding, parts 1..4) pairs and triples of each protocol: irreflexive, asymmetric, transitive, total",
 				N: func(fw.Tier) uint64 { return 2 },
